@@ -3,6 +3,7 @@ CONSTANTS
   NH = 3
   MaxBlocks = 2
   MaxSteps = 9
+  Bases <- BaseAll
   Layouts <- LayMid
   Counts <- HostCounts
   Lens <- HostLens
